@@ -298,8 +298,8 @@ class GW(StoreW):
         elif x < 0.74: how = {"k": "append", "hex": objs.rnd(r, r.choice([1, 7, 8, 16, 100])).hex()}
         elif x < 0.8: how = {"k": "replace", "hex": r.choice([b"", objs.rnd(r, 8), objs.rnd(r, 100), bytes(64), b"\xff" * 64]).hex()}
         elif x < 0.86 and toks: how = {"k": "swap", "with": "@obj:" + r.choice(toks).ref} if not path.startswith("@tok") or r.random() < 0.5 else {"k": "swap", "with": "@tok:" + r.choice(self.toks())}
-        elif x < 0.9: how = {"k": "delete"}
-        elif x < 0.97 and not path.startswith(("@lock", "@toklock")):
+        elif x < 0.88: how = {"k": "delete"}
+        elif x < 0.94 and not path.startswith(("@lock", "@toklock")):
             # the stored KIND of one attribute no longer fits its TYPE (file still well-formed)
             kind = r.choice([1, 2, 3, 3, 4, 5])
             u64 = lambda v: int(v).to_bytes(8, "big")
@@ -314,7 +314,20 @@ class GW(StoreW):
             how = {"k": "retype", "index": r.randrange(64), "kind": kind, "enc": enc.hex()}
         else:
             path = "/sim/tokens/%s/%s" % ("@", "x"); how = None
-        if how is None:
+        if how is None and r.random() < 0.5:
+            # unexpected ENTRIES in the token directory: a sub-directory named like an object / lock / the token file's lock, a left-over lock without object,
+            # an object name that is not a UUID, an empty "generation" file, a file inside the tokens directory where a token directory is expected
+            t = r.choice(self.toks())
+            u = "%08x-dead-beef-0000-%012x" % (r.getrandbits(32), r.getrandbits(48))
+            what = r.choice(["dir.object", "dir.lock", "lock_only", "odd_name", "generation", "dir_generation", "long_name"])
+            if what == "dir.object": self.emit({"act": "corrupt", "path": "@newfile:%s:%s.object" % (t, u), "how": {"k": "mkdir"}}, tid)
+            elif what == "dir.lock": self.emit({"act": "corrupt", "path": "@newfile:%s:%s.lock" % (t, u), "how": {"k": "mkdir"}}, tid)
+            elif what == "lock_only": self.emit({"act": "corrupt", "path": "@newfile:%s:%s.lock" % (t, u), "how": {"k": "write", "hex": ""}}, tid)
+            elif what == "odd_name": self.emit({"act": "corrupt", "path": "@newfile:%s:%s" % (t, r.choice([".object", "x.object", "..object", "a b.object", u + ".object.object"])), "how": {"k": "write", "hex": objs.rnd(r, r.choice([0, 8, 40])).hex()}}, tid)
+            elif what == "generation": self.emit({"act": "corrupt", "path": "@newfile:%s:generation" % t, "how": {"k": "write", "hex": objs.rnd(r, r.choice([0, 1, 7, 8, 9, 100])).hex()}}, tid)
+            elif what == "dir_generation": self.emit({"act": "corrupt", "path": "@newfile:%s:generation" % t, "how": {"k": "mkdir"}}, tid)
+            else: self.emit({"act": "corrupt", "path": "@newfile:%s:%s.object" % (t, "y" * 240), "how": {"k": "write", "hex": objs.rnd(r, 16).hex()}}, tid)
+        elif how is None:
             t = r.choice(self.toks())
             self.emit({"act": "corrupt", "path": "@tokdir:" + t, "how": {"k": "noop"}}, tid)
             name = "%08x-dead-beef-0000-%012x.object" % (r.getrandbits(32), r.getrandbits(48))
@@ -373,6 +386,15 @@ def gen(seed, tier, index):
     mode = "hostile" if index % 3 == 2 else "corrupt"
     g = GW(seed, "C17", profile=mode, ntok=(1 if index % 2 else 2))
     r = g.r
+    # configuration: slots.mechanisms in every legal spelling (ALL, positive and negative lists, names repeated, unknown names, trailing commas)
+    if index % 4 == 1:
+        names = ["CKM_RSA_PKCS", "CKM_SHA256", "CKM_AES_CBC", "CKM_AES_ECB", "CKM_SHA256_HMAC", "CKM_ECDSA", "CKM_AES_KEY_WRAP", "CKM_AES_CBC_PAD", "CKM_AES_GCM", "CKM_AES_KEY_GEN", "CKM_EC_KEY_PAIR_GEN", "CKM_GENERIC_SECRET_KEY_GEN", "CKM_SHA_1", "CKM_NOSUCH"]
+        lst = [r.choice(names) for _ in range(r.randint(1, 12))]
+        if r.random() < 0.6: lst += [r.choice(lst) for _ in range(r.randint(1, 4))]       # repeats
+        txt = ",".join(lst)
+        if r.random() < 0.25: txt = "-" + txt
+        if r.random() < 0.2: txt += ","
+        g.knobs.setdefault("conf", {})["slots.mechanisms"] = txt
     g.begin()
     if mode == "hostile": g.template_p = 0.7      # keys with wrap / unwrap templates: the calls that compare templates need them
     for t in g.toks():
@@ -381,6 +403,7 @@ def gen(seed, tier, index):
         g.s_create(kind=kd, token=r.random() < 0.7)
     if mode == "hostile": g.s_create(kind="aes", token=r.random() < 0.5)
     n = r.choice([6, 10, 16, 24]) if tier == "quick" else r.choice([10, 20, 40])
+    for t in g.toks(): g.emit({"f": "C_GetMechanismList", "slot": t, "cap": "exact"}, ok=False)
     if mode == "corrupt":
         g.emit({"act": "fsbackup"})
         for _ in range(n):
